@@ -8,9 +8,9 @@ def _partial(chk):
     if chk.quick:
         partial_replay.run(chk, k=2, max_cmp=3)
     else:
-        partial_replay.run(chk, k=3, max_cmp=3, stride=8)
+        partial_replay.run(chk, k=3, max_cmp=3, stride=16)
     # the same call evaluated several times with dynamic (Is) parts and parts that are mutated in place
-    reeval_replay.run(chk, stride=16 if chk.quick else 4)
+    reeval_replay.run(chk, stride=16 if chk.quick else 8)
 
 
 def _twin(run):
@@ -21,7 +21,7 @@ def _twin(run):
 
 
 def run():
-    chk = core_check("C14", annotate=_twin, cfgs=("B", "A"), quick_keep=16, thorough_keep=6, keep_b=(3, 1), extra=_partial, traces=(3000, 20000))
+    chk = core_check("C14", annotate=_twin, cfgs=("B", "A"), quick_keep=16, thorough_keep=8, keep_b=(3, 2), extra=_partial, traces=(3000, 20000))
     if isinstance(chk, int):
         return chk
     chk.assumptions += ["placements: own function, all calls on one line (lambdas), one function holding all calls, "
